@@ -56,7 +56,7 @@ CHECKS.append(
     dict(id="C20", level="other", engine="E1+E2+E3",
          text="Per native Term/TryFromTerm impl: datatype constants, boolean constants, plain `{}` rendering with the "
               "Display language included in the XSD lexical space, Display of f64 only off the is_infinite() edge with "
-              "INF/-INF constants; conversions parse the lexical form only behind whitelisted datatype tests and on the literal branch, as the Rust type whose value space is the datatype's (xsd:float as f32); the SPARQL engine's own formatting of computed floats/doubles is on the finite edge of a test (one known finding) and of decimals in plain notation; an integer conversion whose datatype has bounds the target type lacks, and the f64 conversion handing any lexical form to Rust's parser, are reported (four known findings). Decides the construction tables, not std's numeric round trip.",
+              "INF/-INF constants; conversions parse the lexical form only behind whitelisted datatype tests and on the literal branch, as the Rust type whose value space is the datatype's (xsd:float as f32); the SPARQL engine's own formatting of computed floats/doubles is on the finite edge of a test (one known finding) and of decimals in plain notation; an integer conversion whose datatype has bounds the target type lacks, and the f64 conversion handing any lexical form to Rust's parser, are reported (four known findings); xsd:decimal has its own parse in the f64 conversion and normalises its zero. Decides the construction tables, not std's numeric round trip.",
          note="Trusted: rustc MIR, std Display/FromStr behaviour as stated in the evidence assumptions. Known finding: SparqlValue::lexical_form writes computed infinities as \"inf\" (pinned by two unit tests of the repository); i32/isize/usize conversions do not check the datatype's own range (\"-5\"^^xsd:nonNegativeInteger converts); f64 accepts \"inf\", \"1e3\"^^xsd:decimal.",
          technique="static: table agreement + edge-dominance over MIR; one DFA inclusion"))
 CHECKS.append(
@@ -73,7 +73,7 @@ CHECKS.append(
     dict(id="C08", level="other", engine="E1+E2+E3",
          text="Validator languages include every token the back-ends can certainly deliver (DFA inclusion over all strings); "
               "panic audit of everything reachable from the parser adapters (auto-discharge rules + exact-key audited table, "
-              "fail closed); accessor/kind consistency of all 32 Term impls; who-may-construct ArcBnode; every `map_unchecked` of a wrapper is a conversion of the wrapped string or an audited unchecked construction; the JSON-LD adapter hands its configured IRIs to iref before the processor starts and validates json-ld's language tags before a quad is delivered (R8.9, R8.10: use-only-after-successful-check rules). Decides the "
+              "fail closed); accessor/kind consistency of all 32 Term impls; who-may-construct ArcBnode; every `map_unchecked` of a wrapper is a conversion of the wrapped string or an audited unchecked construction; the JSON-LD adapter hands its configured IRIs to iref before the processor starts and validates json-ld's language tags and blank node labels before a quad is delivered (R8.9, R8.10: use-only-after-successful-check rules). Decides the "
               "workspace's own adapter code, not termination or panics inside rio/json-ld.",
          note="Trusted: the pinned back-ends emit tokens of their normative grammars (A8) except where refuted; rustc MIR; regex engines; "
               "the audited table with one reason per entry. Known findings: four unchecked constructions resting on a back-end guarantee that a reproduction refuted (rio blank node labels; rio IRIs: rio_xml namespace concatenation, rio_turtle prefixed-name concatenation, GTriG without a base; the same in datatype position; iref IRIs incl. bracketed hosts that are no IPv6 addresses): they panic in debug builds.",
@@ -159,7 +159,7 @@ CHECKS.append(
          text="Order/label independence by construction: every place where order could leak is behind a sort of the very data "
               "consumed (first-degree lines, hash-path list, final quads; the final comparator over fixed-length position "
               "sequences), blank nodes enter first-degree hashes only as the two placeholders, first-degree hashing covers s,p,o,g, "
-              "no hash-ordered container exists in the crate, the returned identifier map is the one applied; the two places where equal candidates are ordered/chosen are reported when the key is the hash/path alone (two known findings). Decides these "
+              "no hash-ordered container exists in the crate, the returned identifier map is the one applied, the list of related blank nodes is sorted before it is permuted; the two places where equal candidates are ordered/chosen are reported when the key is the hash/path alone (two known findings). Decides these "
               "necessary conditions of the invariant, not its completeness (the `only if`).",
          note="Trusted: BTreeMap ordering, std sorts, sha2. Known findings: with blank graph names equal hashes do not imply interchangeable nodes; ties are broken by label order (step 5.3) and quad order (step 5.4.6): RDFC-1.0 itself is label-dependent on such inputs.",
          technique="static: must-pass-through (dominator) rules + constant/flow rules over MIR"))
